@@ -3,6 +3,8 @@
 //! prints for every operation the concrete operation line (`OP …`, input of the model
 //! runner) and the canonicalised response line (`R …`).
 use crate::canon::{Canon, Rng};
+use crate::store::{LogStore, Shared};
+use std::sync::Arc;
 use chrono::{Duration, Utc};
 use std::collections::HashMap;
 use std::io::{BufRead, Write};
@@ -24,6 +26,7 @@ pub struct Ctx {
     pub backend: Backend,
     pub dir: Option<tempfile::TempDir>,
     pub server: Option<Server>,
+    pub store: Option<Arc<LogStore>>,
     pub days: i64,
     pub versions: u32,
     pub clients: HashMap<u32, Uuid>,
@@ -48,6 +51,7 @@ impl Ctx {
             backend,
             dir: None,
             server: None,
+            store: None,
             days: 14,
             versions: 100,
             clients: HashMap::new(),
@@ -73,18 +77,30 @@ impl Ctx {
         self.server = None; // drop the old storage object first
         match self.backend {
             Backend::InMem => {
-                if fresh || self.server.is_none() {
-                    self.server = Some(Server::new(self.cfg(), InMemoryStorage::new()));
+                if fresh || self.store.is_none() {
+                    self.store = Some(Arc::new(LogStore::new(InMemoryStorage::new())));
                 }
             }
             Backend::Sqlite => {
+                self.store = None;
                 if fresh {
                     self.dir = Some(tempfile::TempDir::new().expect("tempdir"));
                 }
                 let st = SqliteStorage::new(self.dir.as_ref().unwrap().path()).expect("open sqlite");
-                self.server = Some(Server::new(self.cfg(), st));
+                self.store = Some(Arc::new(LogStore::new(st)));
             }
         }
+        let shared = Shared(self.store.as_ref().unwrap().clone());
+        self.server = Some(Server::new(self.cfg(), shared));
+    }
+
+    /// the storage object behind the server, for other owners (WebServer)
+    pub fn shared(&self) -> Shared {
+        Shared(self.store.as_ref().unwrap().clone())
+    }
+
+    pub fn canon_peek(&self, u: Uuid) -> Option<u64> {
+        self.canon.peek(&u)
     }
 
     pub fn client(&mut self, n: u32) -> Uuid {
@@ -593,13 +609,8 @@ impl Ctx {
         self.days = days;
         self.versions = versions;
         // a new Server object over the same storage
-        match self.backend {
-            Backend::Sqlite => self.open(false),
-            Backend::InMem => {
-                // the in-memory store cannot be re-attached: only allowed before any operation
-                self.open(true);
-            }
-        }
+        let shared = self.shared();
+        self.server = Some(Server::new(self.cfg(), shared));
         self.out.push(format!("OP cfg {days} {versions}"));
     }
 
